@@ -749,7 +749,7 @@ pub fn reentrant_programs() -> Vec<String> {
     }
     // the same with the objects wrapped in tuples / lists (comparisons recurse into the wrappers)
     for e in list_effects {
-        for (open, close) in [("(", ",)"), ("[", "]")] {
+        for (open, close) in [("(", ",)"), ("[", "]"), ("{k: ", "}")] {
             for c in ["l.sort()", "l.contains l[0]", "l.retain l[0]", "l.retain WRAP(mk 1)", "l.contains WRAP(mk 1)", "l == [l[0], l[1], l[2]]", "l.min()", "l.position |x| x == l[1]"] {
                 let c = c.replace("WRAP(mk 1)", &format!("{open}mk(1){close}"));
                 out.push(format!(
